@@ -38,6 +38,9 @@ func mayRefuse(t reflect.Type, seen map[reflect.Type]bool) string {
 		if t.Key().Kind() != reflect.String {
 			return "map key " + t.Key().Kind().String()
 		}
+		if t.Key() != reflect.TypeOf("") {
+			return "named map key type " + t.Key().Name()
+		}
 		return mayRefuse(t.Elem(), seen)
 	case reflect.Struct:
 		names := map[string]bool{}
